@@ -165,6 +165,18 @@ def d3_actions(facts, rep):
         st = [(p_, o) for p_, o in atomic_ops(fn) if o['kind'] in ('store', 'rmw') and last_member(fn, o['obj']) == 'm_is_owner_recalled']
         rep.ob('D3', 'K1', fn, 'recall_owner publishes the flag with release (or stronger)', bool(st) and all(has_release(o['order'] or 0) for _, o in st),
                ', '.join(oname(o['order']) for _, o in st))
+        # ... and it is the LAST write of the hand-over: the owner may take its stack back (and suspend again on it) the moment it
+        # sees the flag, so everything else recall_owner writes into the suspend point - the `notified` stack state - is written
+        # before the release store.  A state store after the flag lands on a stack the caller no longer owns: it is taken for the
+        # resume() of the owner's NEXT suspension (continued without resume / the real resume is ignored and the task forgotten)
+        late = []
+        for fp, fo in st:
+            for p_, o in atomic_ops(fn):
+                if o['kind'] in ('store', 'rmw', 'cas') and last_member(fn, o['obj']) != 'm_is_owner_recalled' and fn.can_reach(fp, p_):
+                    late.append('%s (line %s)' % (last_member(fn, o['obj']), o.get('ln')))
+        rep.ob('D3', 'K2', fn, 'the recall flag is the last thing recall_owner writes into the suspend point', bool(st) and not late,
+               'written after the owner was told that its stack is free: %s - the owner can already have suspended again on that stack; the late '
+               'store is taken for the resume of the next suspension' % ', '.join(late), key_extra='flag-last')
     # set before every stack switch that relies on it
     for pname, switch in ((R1 + 'task_dispatcher::recall_point', ('internal_suspend',)), (SP + 'resume_task::execute', ('resume', 'wait')),
                           (R1 + 'task_dispatcher::co_local_wait_for_all', ('resume',))):
